@@ -773,3 +773,39 @@ example : Mem.centerComputeI [5, 12] (-3) = some ([8, 16], [1, 2]) ∧
     Mem.centerComputeI [4] (2 ^ 40 - 1) = some ([2 ^ 42], [2 ^ 41 - 2]) ∧
     Mem.centerComputeI [4] (2 ^ 40) = none ∧ Mem.centerComputeI [4, 0] 0 = none := by
   decide +kernel
+
+/-- **C17 (the `f.T` call).** (1) In the core model the column pass is the row pass between two transpositions:
+`colsPass T N0 f = (rowsPass T N0 fᵀ)ᵀ`. (2) At the level of memory: one call of a C kernel on the TRANSPOSED view
+`v.T` (strides swapped, same memory) of an injective view, with the pointer right along axis 0 (`N0` even or
+`|s0| = 1`), stores into the view the core row kernel applied to every COLUMN of the image the view showed, and changes
+nothing outside the view — `_convolve.daubechies(f.T, code)` is the column pass whatever the layout of `f`. -/
+theorem C17_transposed_pass {K : Type} [Field K] (k : Mem.Kern) (cs : List K) (v : Mem.View) (hinj : v.Inj)
+    (h0 : v.N0 % 2 = 0 ∨ v.s0 = 1 ∨ v.s0 = -1) (m : Mem.Memory K) :
+    (∀ (T : Nat → (Nat → K) → Nat → K) (N0 : Nat) (f : Im K),
+      colsPass T N0 f = fun y x => rowsPass T N0 (fun a b => f b a) x y) ∧
+    (∀ y x, y < v.N0 → x < v.N1 →
+      Mem.pass k cs v.T m (v.addr y x) = colsPass (Mem.coreKernel k cs) v.N0 (v.read m) y x) ∧
+    (∀ a, (∀ y x, y < v.N0 → x < v.N1 → a ≠ v.addr y x) → Mem.pass k cs v.T m a = m a) :=
+  ⟨fun _ _ _ => rfl, (Mem.pass_T_spec k cs v hinj (Mem.highOK_of _ _ h0) m).1,
+    (Mem.pass_T_spec k cs v hinj (Mem.highOK_of _ _ h0) m).2⟩
+
+/-- **C17 (`ihaar(haar(f))` in memory, odd sides included).** `haar` and then `ihaar`, both in place on the same
+injective view with both pointers right (each side even or of unit stride — e.g. a C-contiguous array with an EVEN
+number of rows and ANY number of columns, or a Fortran-contiguous one with an even number of columns), `preserve_energy`
+the same in both calls: afterwards the view holds the original value at every `(y, x)` with `y < 2⌊N0/2⌋`, `x < 2⌊N1/2⌋`
+and `0` in the last row / column of an odd side. Over any field with `2 ≠ 0`. (Where a pointer is wrong — an odd side
+reached with a non-unit stride — the memory model `Mem.wrapperBody` still says what the code returns, see the example
+after `C17_mem_is_core`; no closed form is claimed there.) -/
+theorem C17_ihaar_haar_memory {K : Type} [Field K] (h2 : (2 : K) ≠ 0) (pe : Bool) (cs cs' : List K) (v : Mem.View)
+    (hinj : v.Inj) (h1 : v.N1 % 2 = 0 ∨ v.s1 = 1 ∨ v.s1 = -1) (h0 : v.N0 % 2 = 0 ∨ v.s0 = 1 ∨ v.s0 = -1)
+    (m : Mem.Memory K) (y x : Nat) (hy : y < v.N0) (hx : x < v.N1) :
+    Mem.wrapperBody .ihaar pe cs' v (Mem.wrapperBody .haar pe cs v m) (v.addr y x)
+      = if y < 2 * (v.N0 / 2) ∧ x < 2 * (v.N1 / 2) then m (v.addr y x) else 0 :=
+  Mem.haar_ihaar_mem h2 pe cs cs' v hinj (Mem.highOK_of _ _ h1) (Mem.highOK_of _ _ h0) m y x hy hx
+
+/-- non-vacuity: the C-contiguous `2 × 3` array `(1,4,9), (16,25,36)` (even number of rows, odd number of columns):
+`ihaar(haar(f))` in place gives `(1,4,0), (16,25,0)` — what the real code returns -/
+example : (List.range 6).map (fun (a : Nat) => Mem.wrapperBody .ihaar true ([] : List ℚ) (Mem.View.contig 2 3)
+      (Mem.wrapperBody .haar true [] (Mem.View.contig 2 3)
+        (fun p => ([1, 4, 9, 16, 25, 36] : List ℚ).getD p.toNat 0)) (a : Int)) = [1, 4, 0, 16, 25, 0] := by
+  decide +kernel
